@@ -1,0 +1,13 @@
+//go:build verif
+
+// Contracts for package discovery (comment-only; read by /verif/govc, never compiled into olric).
+
+package discovery
+
+// The member list comes from hashicorp/memberlist; only its size is bounded here (a cluster has fewer than 2^16
+// members), what it contains is not modelled.
+//@ func (d *Discovery) GetMembers() []Member
+//@   props C14 C13
+//@   trusted
+//@   ensures #size: len(result) <= 65536 && (cap(result) == 0 || fresh(result))
+//@   modifies nothing
